@@ -39,6 +39,8 @@ def plans(world, info, seed, tier):
         sim = {"latency": "instant", "reply": pol, "reply_seed": rng.randrange(1 << 30), "faults": []}
         if world["class"] in models.MIN_SEARCH_CLASSES and rng.random() < 0.3:
             sim["faults"] = [{"at": rng.randrange(0, 3), "kind": rng.choice(["interrupt", "time_limit_with_incumbent", "unknown", "time_limit_no_incumbent"])}]
+        if pol != "canonical" and rng.random() < 0.3:
+            sim["resolve"] = 1          # solve() a second time on the same object, then read the solution
         specs.append({"world": world, "sim": sim})
     # given-weights variant of the DAG k-models: one layer per given weight, of which at most k may be used
     g = world["graph"]
